@@ -1,6 +1,7 @@
 import RbV.Basic.Codec
 import RbV.Ref.BS
 import RbV.Model.LFMapping
+import RbV.Model.LFSortedCheck
 /-! Driver for property C05: FM-index backward search.
 
 `c05 <s1>/<s2>/… a:<alphabet> k:<occ rate> s:<sa sampling> m:<o|b|a> <p1>/<p2>/… => <sa> <r1>/<r2>/…`
@@ -103,7 +104,8 @@ def verdict (toks : List String) (out : String) : String :=
             | none =>
               let kinds := obs.map (fun o => kindTag o.res)
               let nt := (pats.zip obs).any (fun (p, o) => p.length ≥ 2 && o.res != .absent)
-              "ok" ++ tagIf nt "nt" ++ (if modelAgrees t sa pats obs then " model=impl" else " drift") ++ tagIf (kinds.contains "complete") "complete"
+              "ok" ++ tagIf nt "nt" ++ (if modelAgrees t sa pats obs then " model=impl" else " drift")
+                ++ (if LF.sortedAllB t sa then " lf-sorted" else " not-lf-sorted") ++ tagIf (kinds.contains "complete") "complete"
                 ++ tagIf (kinds.contains "partial") "partial" ++ tagIf (kinds.contains "absent") "absent"
                 ++ tagIf (seqs.length ≥ 2) "multi-sentinel" ++ tagIf (seqs.any (·.isEmpty)) "empty-seq"
                 ++ tagIf (kN > 64) "k>64" ++ tagIf (kN = 64) "k=64" ++ tagIf (kN < 64) "k<64"
